@@ -136,6 +136,16 @@ def cases(tier):
         if thorough and sum(sh) > 13:
             continue
         out.append({"sub": "states", "shape": [[sh[0], sh[1]], [sh[2], sh[3]], [sh[4], sh[5]]]})
+    # admissible = in the grid AND inside the domain: the two non-trivial boundaries the module offers that satisfy the
+    # assumptions stated in Domain's docstring (contain the origin, convex): a rectangle strictly inside the grid, the simplex
+    top = 5 if thorough else 4
+    for bnd in ("rectangle", "simplex"):
+        for l in (2, 3):
+            for r1 in range(2, top + 1):
+                for r2 in range(2, top + 1):
+                    out.append({"sub": "states", "shape": [[l, r1], [l, r2]], "boundary": bnd})
+        for r1, r2, r3 in itertools.product((2, 3), repeat=3):
+            out.append({"sub": "states", "shape": [[2, r1], [2, r2], [2, r3]], "boundary": bnd})
     return out
 
 
@@ -464,11 +474,12 @@ def make_grid(shape):
 
 
 def _sub_states(sh, case):
-    from rpylib.distribution.pairing import (Boundary, Domain, PairingToZ1d, PairingToZd, RosenbergStrong, StatesManager,
-                                             Szudzik)
+    from rpylib.distribution.pairing import (Boundary, Domain, PairingToZ1d, PairingToZd, RectangleBoundary, RosenbergStrong,
+                                             SimplexBoundary, StatesManager, Szudzik)
 
     shape = [tuple(s) for s in case["shape"]]
     dim = len(shape)
+    bnd = case.get("boundary", "none")
     if dim > 1 and len({s[0] for s in shape}) != 1:
         sh.count("skipped-unrepresentable-origin")
         return
@@ -481,8 +492,21 @@ def _sub_states(sh, case):
     else:
         pairing = PairingToZd(pairing=Szudzik() if dim == 2 else RosenbergStrong(), dimension=dim)
         ref = sorted(t for t in itertools.product(*[range(-l, r + 1) for (l, r) in shape]) if any(t))
-    domain = Domain(boundary=Boundary(), grid=grid, pairing=pairing)
+    boundary = Boundary()
+    if bnd != "none":
+        # grid spacing is 1.0 and the origin value 0.0, so a state increment IS its grid point: the reference evaluates the
+        # boundary predicate on every in-grid state (brute force), independently of frontier / largest-index bookkeeping
+        if bnd == "rectangle":
+            boundary = RectangleBoundary([(-(l - 0.5), r - 0.5) for (l, r) in shape])
+        else:
+            boundary = SimplexBoundary([(-float(l), float(r)) for (l, r) in shape])
+        ref = [t for t in ref if not bool(boundary(np.array([float(v) for v in t])))]
+        if len(ref) < 3:
+            raise AssertionError(f"alphabet error: boundary {bnd} leaves {len(ref)} states for {shape}")
+    domain = Domain(boundary=boundary, grid=grid, pairing=pairing)
     equal = "equal-axes" if len(set(shape)) == 1 else "unequal-axes"
+    if bnd != "none":
+        equal = f"{bnd}-boundary:{equal}"
     sym = "symmetric" if all(l == r for l, r in shape) else "asymmetric"
     try:
         sm = StatesManager(pairing=pairing, domain=domain, grid=grid)
@@ -561,7 +585,8 @@ def _sub_states(sh, case):
                              f"shape {shape}: first pass {seq[:6]}..., restart at x = max_logged = {m} gives {again[:6]}... instead of {got[m:m + 6]}...",
                              {"m": m, "restart": again, "expected": got[m:]})
                 break
-    sh.outcome((tuple(shape), tuple(got[:4]), len(got)))
+    sh.outcome((tuple(shape), bnd, tuple(got[:4]), len(got)))
     sh.nontriv()
+    sh.cls(f"states:d{dim}:boundary-{bnd}")
     if shape in ([(2, 3)], [(1, 1), (1, 2)]):
         sh.sample({"sub": "states", "shape": shape, "enumerated": got, "reference_size": len(ref)})
